@@ -18,6 +18,10 @@ Definition runv (v : variant) := run v flt0 wres0 bad0 hb0 init.
 
 Definition n (k : nat) (th : tname) : list action := repeat (AStep th XNone) k.
 
+(* UnsubscribeSubscription(s) by client thread c: yield, removal region, close(completed_s) [, cancel] *)
+Definition unsub_steps (c : nat) (s : sid) (cancel : bool) : list action :=
+  n 2 (TCl c) ++ [AStep (TCl c) (XPick s)] ++ (if cancel then n 1 (TCl c) else []).
+
 (* subscriber s on key k: subscribe, hook ok, Start ok, markTriggerInitialized *)
 Definition sub_started (c : nat) (s : sid) (k : key) : list action :=
   [AClient c (CSub s k 1 false false)] ++ n 2 (TCl c) ++
@@ -28,31 +32,45 @@ Definition sub_started (c : nat) (s : sid) (k : key) : list action :=
 Definition wit_a : list action :=
   sub_started 1 1 0 ++
   [ASrc 2 0 (UCE KComplete)] ++ n 5 (TSrc 2) ++ [AStep (TSrc 2) (XPick 1)] ++
-  [AClient 3 (CUnsub 1)] ++ n 4 (TCl 3) ++
+  [AClient 3 (CUnsub 1)] ++ unsub_steps 3 1 true ++
   n 2 (TSrc 2).
 
 (* (b) historical: the client unsubscribes between getTrigger and initialized.Store / TriggerCountInc *)
 Definition wit_b : list action :=
   [AClient 1 (CSub 1 0 1 false false)] ++ n 2 (TCl 1) ++
   [AStep (TSt 1) XNone; AStep (TSt 1) XOk; AStep (TSt 1) XNone; AStep (TSt 1) XOk; AStep (TSt 1) XNone; AStep (TSt 1) XNone] ++
-  [AClient 2 (CUnsub 1)] ++ n 4 (TCl 2) ++
+  [AClient 2 (CUnsub 1)] ++ unsub_steps 2 1 true ++
   n 2 (TSt 1).
 
 (* (c) historical: trigger id reused after teardown; the late Done() of the old source detaches the new trigger *)
 Definition wit_c : list action :=
   sub_started 1 1 0 ++
-  [AClient 2 (CUnsub 1)] ++ n 4 (TCl 2) ++
+  [AClient 2 (CUnsub 1)] ++ unsub_steps 2 1 true ++
   sub_started 3 2 0 ++
-  [ASrc 4 0 UDone] ++ n 6 (TSrc 4).
+  [ASrc 4 0 UDone] ++ n 4 (TSrc 4) ++ [AStep (TSrc 4) (XPick 2)] ++ n 1 (TSrc 4).
 
 (* a run of the repaired model: two subscribers on one trigger, two events, one leaves in between *)
 Definition ex_run : list action :=
   sub_started 1 1 0 ++
   [AClient 2 (CSub 2 0 2 false false)] ++ n 2 (TCl 2) ++ [AStep (TSt 2) XNone; AStep (TSt 2) XOk] ++
-  [ASrc 3 0 (UUpdate 7)] ++ n 6 (TSrc 3) ++ n 5 (TCh 1) ++ n 5 (TCh 2) ++ n 2 (TSrc 3) ++
-  [AClient 4 (CUnsub 1)] ++ n 3 (TCl 4) ++
-  [ASrc 5 0 (UUpdate 8)] ++ n 6 (TSrc 5) ++ n 5 (TCh 2) ++ n 2 (TSrc 5) ++
-  [AClient 6 (CUnsub 2)] ++ n 4 (TCl 6).
+  [ASrc 3 0 (UUpdate 7)] ++ n 6 (TSrc 3) ++ n 9 (TCh 1) ++ n 9 (TCh 2) ++ n 2 (TSrc 3) ++
+  [AClient 4 (CUnsub 1)] ++ unsub_steps 4 1 false ++
+  [ASrc 5 0 (UUpdate 8)] ++ n 6 (TSrc 5) ++ n 9 (TCh 2) ++ n 2 (TSrc 5) ++
+  [AClient 6 (CUnsub 2)] ++ unsub_steps 6 2 true.
+
+(* two subscribers; Update(7) from goroutine 3 is inside the Write to subscriber 1 (parked in the
+   writer) when goroutine 4 calls Update(8): it parks at the updater mutex *)
+Definition ex_two_updates : list action :=
+  sub_started 1 1 0 ++
+  [AClient 2 (CSub 2 0 2 false false)] ++ n 2 (TCl 2) ++ [AStep (TSt 2) XNone; AStep (TSt 2) XOk] ++
+  [ASrc 3 0 (UUpdate 7)] ++ n 6 (TSrc 3) ++ n 4 (TCh 1) ++
+  [ASrc 4 0 (UUpdate 8)] ++ n 1 (TSrc 4).
+
+(* one subscriber inside Write; the client unsubscribes: removal done, close(completed) waits *)
+Definition ex_close_waits : list action :=
+  sub_started 1 1 0 ++
+  [ASrc 3 0 (UUpdate 7)] ++ n 6 (TSrc 3) ++ n 4 (TCh 1) ++
+  [AClient 4 (CUnsub 1)] ++ n 2 (TCl 4).
 
 Definition obs_of (o : option state) : list obs := match o with Some st => rev (log st) | None => [] end.
 Definition thr_of (o : option state) : nat := match o with Some st => length (threads st) | None => 99 end.
@@ -62,3 +80,5 @@ Compute (thr_of (runv fixed wit_a), no_write_after_completed_b (obs_of (runv fix
 Compute (thr_of (runv hist_b wit_b), counters_balanced_b (obs_of (runv hist_b wit_b))).
 Compute (thr_of (runv hist_c wit_c), obs_of (runv hist_c wit_c)).
 Compute (thr_of (runv fixed ex_run), obs_of (runv fixed ex_run)).
+Compute (thr_of (runv fixed ex_two_updates), obs_of (runv fixed ex_two_updates)).
+Compute (thr_of (runv fixed ex_close_waits), obs_of (runv fixed ex_close_waits)).
